@@ -16,6 +16,7 @@ import (
 	"sync/atomic"
 	"time"
 
+	"golang.org/x/sys/unix"
 	"pgregory.net/rapid"
 
 	gnet "github.com/panjf2000/gnet/v2"
@@ -50,6 +51,7 @@ type ConnSpec struct {
 	OnOpen     string // none, reply, action-close, conn-close, loop-close
 	OnCloseDo  string // none, write, action-close
 	Steps      []Step
+	Dup        bool     // OnOpen duplicates the descriptor (Conn.Dup); the duplicate belongs to the user
 	StalePokes []string // after OnClose (and after the second wave is up): x-wake, x-close, x-closecb, x-asyncwrite, x-asyncwritev
 }
 
@@ -58,6 +60,9 @@ type Case struct {
 	Cfg   fx.Cfg
 	Wave1 []ConnSpec
 	Wave2 int // number of plain connections opened after wave 1 has closed
+	// KeepOpen: the second wave is still open when the engine is stopped; its OnClose returns Wave2OnClose
+	KeepOpen     bool
+	Wave2OnClose string // "", action-close, action-shutdown
 }
 
 func (c Case) String() string {
@@ -66,7 +71,7 @@ func (c Case) String() string {
 	for i, cs := range c.Wave1 {
 		fmt.Fprintf(&b, " conn%d: OnOpen=%s OnClose=%s steps %v stale %v\n", i, cs.OnOpen, cs.OnCloseDo, cs.Steps, cs.StalePokes)
 	}
-	fmt.Fprintf(&b, " second wave: %d connections\n", c.Wave2)
+	fmt.Fprintf(&b, " second wave: %d connections, open at stop: %v, OnClose=%s\n", c.Wave2, c.KeepOpen, c.Wave2OnClose)
 	return b.String()
 }
 
@@ -134,6 +139,17 @@ func (c *Conn) OnOpen(gc gnet.Conn) ([]byte, gnet.Action) {
 	c.GoidAtOpen = fx.Goid()
 	c.sess.E.Log.Add(gc, c.ID, "open", "")
 	atomic.AddInt32(&c.sess.opened, 1)
+	if c.Spec.Dup && c.sess.Hooks.Canaries {
+		if d, err := gc.Dup(); err == nil {
+			var st unix.Stat_t
+			_ = unix.Fstat(d, &st)
+			c.sess.mu.Lock()
+			c.sess.UserFds = append(c.sess.UserFds, UserFd{d, st.Ino, fmt.Sprintf("Conn.Dup of conn%d", c.ID)})
+			c.sess.mu.Unlock()
+		} else {
+			c.failf("fd-dup", "Conn.Dup failed: %v", err)
+		}
+	}
 	switch c.Spec.OnOpen {
 	case "reply":
 		atomic.AddInt64(&c.expectOut, 5)
@@ -149,7 +165,9 @@ func (c *Conn) OnOpen(gc gnet.Conn) ([]byte, gnet.Action) {
 	case "loop-close":
 		atomic.StoreInt32(&c.LocalIssued, 1)
 		c.InsideClose = true
+		fd := gc.Fd()
 		_ = gc.EventLoop().Close(gc)
+		c.sess.placeCanary("on the loop right after EventLoop.Close inside OnOpen", fd)
 	}
 	return nil, gnet.None
 }
@@ -193,7 +211,9 @@ func (c *Conn) OnTraffic(gc gnet.Conn) gnet.Action {
 		case "loop-close":
 			atomic.StoreInt32(&c.LocalIssued, 1)
 			c.InsideClose = true
+			fd := gc.Fd()
 			_ = gc.EventLoop().Close(gc)
+			c.sess.placeCanary("on the loop right after EventLoop.Close inside OnTraffic", fd)
 		case "write":
 			// a write on a connection the peer may already have reset
 			p := make([]byte, d.N)
@@ -209,7 +229,10 @@ func (c *Conn) OnTraffic(gc gnet.Conn) gnet.Action {
 }
 
 func (c *Conn) closeCB(gc gnet.Conn, err error) error {
-	atomic.AddInt32(&c.CBs, 1)
+	if atomic.AddInt32(&c.CBs, 1) == 1 {
+		// runs on the loop right after the close was carried out: the descriptor number is free now
+		c.sess.placeCanary("on the loop inside the CloseWithCallback callback", c.Fd)
+	}
 	return nil
 }
 
@@ -235,6 +258,8 @@ func (c *Conn) OnClose(gc gnet.Conn, err error) gnet.Action {
 		atomic.AddInt64(&c.expectOut, 3)
 	case "action-close":
 		act = gnet.Close
+	case "action-shutdown":
+		act = gnet.Shutdown
 	}
 	close(c.closedCh)
 	return act
@@ -247,6 +272,109 @@ func (c *Conn) Closed() bool {
 		return true
 	default:
 		return false
+	}
+}
+
+// ---- canaries ---------------------------------------------------------------------------------
+
+// Canary is a harness-owned socket pair placed on descriptor numbers the
+// framework has just released: nobody but the harness may read, write or close it.
+type Canary struct {
+	A, B    int // A holds Pattern unread; B is its peer
+	Ino     uint64
+	Pattern []byte
+	Where   string
+}
+
+func newCanary(where string) (*Canary, error) {
+	fds, err := unix.Socketpair(unix.AF_UNIX, unix.SOCK_STREAM|unix.SOCK_NONBLOCK|unix.SOCK_CLOEXEC, 0)
+	if err != nil {
+		return nil, err
+	}
+	var st unix.Stat_t
+	if err := unix.Fstat(fds[0], &st); err != nil {
+		unix.Close(fds[0])
+		unix.Close(fds[1])
+		return nil, err
+	}
+	c := &Canary{A: fds[0], B: fds[1], Ino: st.Ino, Where: where}
+	c.Pattern = []byte(fmt.Sprintf("canary-%d-%d-%s", fds[0], fds[1], where))
+	if _, err := unix.Write(c.B, c.Pattern); err != nil {
+		unix.Close(fds[0])
+		unix.Close(fds[1])
+		return nil, err
+	}
+	// and B readable too, with its own content
+	if _, err := unix.Write(c.A, []byte("b-side")); err != nil {
+		unix.Close(fds[0])
+		unix.Close(fds[1])
+		return nil, err
+	}
+	return c, nil
+}
+
+// Verify checks that nobody touched the canary, then closes it.
+func (c *Canary) Verify() string {
+	defer unix.Close(c.A)
+	defer unix.Close(c.B)
+	var st unix.Stat_t
+	if err := unix.Fstat(c.A, &st); err != nil || st.Ino != c.Ino {
+		return fmt.Sprintf("descriptor %d (placed %s) was closed by someone else (fstat: %v)", c.A, c.Where, err)
+	}
+	if err := unix.Fstat(c.B, &st); err != nil {
+		return fmt.Sprintf("descriptor %d (placed %s) was closed by someone else (fstat: %v)", c.B, c.Where, err)
+	}
+	buf := make([]byte, 256)
+	n, _ := unix.Read(c.A, buf)
+	if n < 0 {
+		n = 0
+	}
+	if string(buf[:n]) != string(c.Pattern) {
+		return fmt.Sprintf("descriptor %d (placed %s): its unread content changed from %q to %q - someone read from or wrote to the pair", c.A, c.Where, c.Pattern, buf[:n])
+	}
+	n, _ = unix.Read(c.B, buf)
+	if n < 0 {
+		n = 0
+	}
+	if string(buf[:n]) != "b-side" {
+		return fmt.Sprintf("descriptor %d (placed %s): its unread content changed to %q - someone read from or wrote to the pair", c.B, c.Where, buf[:n])
+	}
+	return ""
+}
+
+func (s *Session) placeCanary(where string, wantFd int) {
+	if !s.Hooks.Canaries {
+		return
+	}
+	// grab a few pairs; keep the ones that landed on interesting numbers (or the first)
+	var keep *Canary
+	var spare []*Canary
+	for i := 0; i < 4; i++ {
+		c, err := newCanary(where)
+		if err != nil {
+			break
+		}
+		if c.A == wantFd || c.B == wantFd {
+			keep = c
+			break
+		}
+		spare = append(spare, c)
+	}
+	for i, c := range spare {
+		if keep == nil && i == 0 {
+			keep = c
+			continue
+		}
+		unix.Close(c.A)
+		unix.Close(c.B)
+	}
+	if keep != nil {
+		s.mu.Lock()
+		s.Canaries = append(s.Canaries, keep)
+		if keep.A == wantFd || keep.B == wantFd {
+			s.CanaryHits++
+		}
+		s.mu.Unlock()
 	}
 }
 
@@ -264,6 +392,30 @@ type Session struct {
 	Infra          string
 	CountChecks    int
 	Hooks          Hooks
+	Canaries       []*Canary
+	CanaryHits     int // canaries that landed exactly on a just-released descriptor number
+	UserFds        []UserFd
+}
+
+// UserFd is a descriptor handed to the user (Dup / DupListener).
+type UserFd struct {
+	Fd   int
+	Ino  uint64
+	What string
+}
+
+// VerifyUserFds checks that descriptors handed to the user are still open on the
+// same object, then closes them.
+func (s *Session) VerifyUserFds() {
+	for _, u := range s.UserFds {
+		var st unix.Stat_t
+		if err := unix.Fstat(u.Fd, &st); err != nil || st.Ino != u.Ino {
+			s.addFail(fmt.Sprintf("VERIF-KEY:fd-user-closed the descriptor %d returned by %s was closed by the framework (fstat: %v)", u.Fd, u.What, err))
+			continue
+		}
+		unix.Close(u.Fd)
+	}
+	s.UserFds = nil
 }
 
 // Hooks let a check observe or steer a session.
@@ -275,8 +427,9 @@ type Hooks struct {
 	BeforeStop func(s *Session)
 	// AfterStop runs after Run returned.
 	AfterStop func(s *Session)
-	// InClose runs on the loop goroutine at the end of every OnClose.
-	NoStop bool
+	NoStop    bool
+	// Canaries: place harness-owned socket pairs on descriptor numbers the framework just released.
+	Canaries bool
 }
 
 func (s *Session) addFail(f string)  { s.mu.Lock(); s.Fails = append(s.Fails, f); s.mu.Unlock() }
@@ -352,7 +505,11 @@ func (s *Session) exec(c *Conn, p *peerIO, st Step, wg *sync.WaitGroup) {
 		c.mu.Unlock()
 		// make an OnTraffic happen: one byte from the peer, or a Wake when the peer is gone
 		_ = p.c.SetWriteDeadline(time.Now().Add(time.Second))
-		if _, err := p.c.Write([]byte{1}); err != nil && gc != nil {
+		trig := 1
+		if st.Dir != "write" && st.N > 1 {
+			trig = st.N // the directive runs in the callback of a read of this size
+		}
+		if _, err := p.c.Write(make([]byte, trig)); err != nil && gc != nil {
 			_ = gc.Wake(nil)
 		}
 		select {
@@ -427,6 +584,12 @@ func Run(cs Case, hooks Hooks) *Session {
 		for _, p := range e.Logger.Panics() {
 			s.addFail("VERIF-KEY:panic-logged " + p)
 		}
+		for _, cn := range s.Canaries {
+			if msg := cn.Verify(); msg != "" {
+				s.addFail("VERIF-KEY:fd-canary " + msg)
+			}
+		}
+		s.VerifyUserFds()
 		if hooks.AfterStop != nil {
 			hooks.AfterStop(s)
 		}
@@ -492,6 +655,7 @@ func Run(cs Case, hooks Hooks) *Session {
 			}
 			select {
 			case <-c.closedCh:
+				s.placeCanary("by another goroutine right after OnClose", c.Fd)
 			case <-time.After(StallBound):
 				s.addStall(fmt.Sprintf("VERIF-KEY:life-noclose conn%d: OnOpen was seen but no OnClose within %v of its close cause(s) (local %v, peer %v)", c.ID, StallBound, atomic.LoadInt32(&c.LocalIssued) == 1, atomic.LoadInt32(&c.PeerIssued) == 1))
 			}
@@ -507,7 +671,7 @@ func Run(cs Case, hooks Hooks) *Session {
 	// ---- wave 2: fresh connections that get the descriptor numbers of wave 1 ----
 	var w2 []cp
 	for i := 0; i < cs.Wave2; i++ {
-		c, p, ok := connect(ConnSpec{}, 2)
+		c, p, ok := connect(ConnSpec{OnCloseDo: cs.Wave2OnClose}, 2)
 		if !ok {
 			return s
 		}
@@ -591,6 +755,27 @@ func Run(cs Case, hooks Hooks) *Session {
 		}
 	}
 	countCheck("after stale requests")
+	if cs.KeepOpen && len(w2) > 0 {
+		// engine shutdown with open connections: every one of them gets its OnClose before Run returns
+		for _, x := range w2 {
+			atomic.StoreInt32(&x.c.LocalIssued, 1) // the shutdown is a local cause
+		}
+		stop()
+		for _, x := range w2 {
+			if atomic.LoadInt32(&x.c.Closes) != 1 {
+				s.addFail(fmt.Sprintf("VERIF-KEY:life-noclose-at-shutdown conn%d (fd %d) was open when the engine was stopped: %d OnClose calls by the time Run returned", x.c.ID, x.c.Fd, atomic.LoadInt32(&x.c.Closes)))
+			} else if x.c.CloseErr != nil {
+				s.addFail(fmt.Sprintf("VERIF-KEY:life-close-err conn%d: closed by the engine shutdown but OnClose reported %v", x.c.ID, x.c.CloseErr))
+			}
+			x.p.c.Close()
+		}
+		for _, c := range s.Conns {
+			c.mu.Lock()
+			s.Fails = append(s.Fails, c.Fails...)
+			c.mu.Unlock()
+		}
+		return s
+	}
 	// close wave 2 from the peer side
 	for _, x := range w2 {
 		atomic.StoreInt32(&x.c.PeerIssued, 1)
@@ -626,7 +811,7 @@ func drawCause(t *rapid.T) Step {
 	case 2:
 		return Step{Kind: "p-half"}
 	case 3, 4:
-		return Step{Kind: "h", Dir: rapid.SampledFrom(closeDirs).Draw(t, "dir")}
+		return Step{Kind: "h", Dir: rapid.SampledFrom(closeDirs).Draw(t, "dir"), N: rapid.SampledFrom([]int{1, 1, 1024, 2048, 4096, 70000}).Draw(t, "trigger")}
 	case 5:
 		return Step{Kind: "x-close"}
 	case 6:
@@ -645,6 +830,7 @@ func DrawConn(t *rapid.T) ConnSpec {
 	var c ConnSpec
 	c.OnOpen = rapid.SampledFrom([]string{"", "", "", "", "reply", "action-close", "conn-close", "loop-close"}).Draw(t, "onOpen")
 	c.OnCloseDo = rapid.SampledFrom([]string{"", "", "", "write", "action-close"}).Draw(t, "onClose")
+	c.Dup = rapid.IntRange(0, 4).Draw(t, "dup") == 0
 	n := rapid.IntRange(0, 6).Draw(t, "steps")
 	for i := 0; i < n; i++ {
 		switch rapid.IntRange(0, 7).Draw(t, "step") {
@@ -690,5 +876,10 @@ func DrawCase(t *rapid.T, o fx.DrawOpt) Case {
 		cs.Wave1 = append(cs.Wave1, DrawConn(t))
 	}
 	cs.Wave2 = rapid.IntRange(0, 4).Draw(t, "wave2")
+	if rapid.IntRange(0, 3).Draw(t, "keepOpen") == 0 {
+		cs.KeepOpen = true
+		cs.Wave2 = rapid.IntRange(1, 6).Draw(t, "openAtStop")
+		cs.Wave2OnClose = rapid.SampledFrom([]string{"", "action-close", "action-shutdown"}).Draw(t, "wave2OnClose")
+	}
 	return cs
 }
